@@ -139,6 +139,16 @@ def effects_check(res, model: Model, qual: str, ref_src: str, what: str, effect_
     ok = not un and not rest
     why = ""
     if not ok:
+        # semantic criterion: guard structure may differ as long as no two simultaneously satisfiable paths disagree
+        from ..vn import pairwise_conflict
+
+        def same(o1, o2):
+            return o1[0] == o2[0] and _val_eq(o1[1], o2[1])
+
+        conflict = pairwise_conflict([(c, (fx, r)) for c, fx, r in s1], [(c, (fx, r)) for c, fx, r in s2], same)
+        if conflict is None:
+            ok = True
+    if not ok:
         def diff(a, pool):
             # closest path in the pool: most guards in common
             best = None
